@@ -114,4 +114,44 @@ Section StmtFacts.
   Lemma run_body_seq_oof n (a b : stmt) e d w :
     I n (a e) w = OutOfFuel -> I n (run_body (s_seq a b) e d) w = OutOfFuel.
   Proof. intro H. apply run_body_oof, seq_oof. exact H. Qed.
+  (* ----- inversion rules ----- *)
+  Lemma run_body_seq_inv n (a b : stmt) e d w r w' :
+    I n (run_body (s_seq a b) e d) w = Done r w' ->
+    (exists e1 w1, I n (a e) w = Done (inl (CNormal, e1)) w1 /\ I n (run_body b e1 d) w1 = Done r w') \/
+    (exists v e1, I n (a e) w = Done (inl (CReturn v, e1)) w' /\ r = inl v) \/
+    (exists x, I n (a e) w = Done (inr x) w' /\ r = inr x).
+  Proof.
+    unfold run_body, s_seq. intro H. apply interp_bind_inv in H.
+    destruct H as [([c e2] & w2 & H1 & H2)|(x & H1 & ->)].
+    - apply interp_bind_inv in H1. destruct H1 as [([c1 e1] & w1 & Ha & Hb)|(x & Ha & Hx)]; [|discriminate].
+      cbn [fst snd] in Hb. destruct c1.
+      + left. exists e1, w1. split; [exact Ha|]. erewrite interp_bind_done by exact Hb. exact H2.
+      + rewrite interp_ret in Hb. inversion Hb; subst. rewrite interp_ret in H2. inversion H2; subst.
+        right. left. exists v, e2. split; [exact Ha|reflexivity].
+    - apply interp_bind_inv in H1. destruct H1 as [([c1 e1] & w1 & Ha & Hb)|(y & Ha & Hy)].
+      + cbn [fst snd] in Hb. destruct c1.
+        * left. exists e1, w1. split; [exact Ha|]. erewrite interp_bind_raise by exact Hb. reflexivity.
+        * rewrite interp_ret in Hb. discriminate.
+      + inversion Hy; subst. right. right. eexists. split; [exact Ha|reflexivity].
+  Qed.
+  Lemma run_body_skip n e d w : I n (run_body (s_skip (env:=env) (R:=R)) e d) w = Done (inl d) w.
+  Proof. unfold run_body, s_skip. erewrite interp_bind_done by apply interp_ret. apply interp_ret. Qed.
+
+  (* try: a finally: f, where the finaliser always completes normally turning world w into G w *)
+  Lemma finally_total_inv n (a f : stmt) (G : world -> world) e w r w' :
+    (forall e w, I n (f e) w = Done (inl (CNormal, e)) (G w)) ->
+    I n (s_finally a f e) w = Done r w' ->
+    exists r0 w1, I n (a e) w = Done r0 w1 /\ w' = G w1 /\ r = r0.
+  Proof.
+    intros Hf H. unfold s_finally in H. apply interp_bind_inv in H.
+    destruct H as [(r0 & w1 & H1 & H2)|(x & H1 & _)].
+    - apply interp_catch_inv in H1. destruct H1 as (r1 & Hr & Ha). inversion Hr; subst r0. clear Hr.
+      exists r1, w1. split; [exact Ha|]. destruct r1 as [[c e1]|ex].
+      + erewrite interp_bind_done in H2 by apply Hf. cbn [fst snd] in H2. rewrite interp_ret in H2.
+        inversion H2; subst. split; reflexivity.
+      + erewrite interp_bind_done in H2.
+        2:{ erewrite interp_in_handler_done by apply Hf. reflexivity. }
+        cbn [fst snd] in H2. rewrite interp_raise in H2. inversion H2; subst. split; reflexivity.
+    - apply interp_catch_inv in H1. destruct H1 as (r1 & Hr & _). discriminate.
+  Qed.
 End StmtFacts.
